@@ -340,3 +340,5 @@ def run(cx, out):
     c05.run(cx, sub)
     out.rule('R13.2', 'derived max_encoded_len >= maxlen of the layout declared by the definition (derive corpus of C05)')
     out.absorb(sub, {'R13.2'})
+    from . import positive
+    positive.check(cx, out, 'C13')
